@@ -12,7 +12,6 @@ open LexVerif
 
 theorem items_same : Gen.Literals.WriteFloatOptions.items = Spec.LiteralsExpected.WriteFloatOptions.items := by decide
 theorem k_max_macro : Gen.Literals.WriteFloatOptions.k_max_macro = Spec.LiteralsExpected.WriteFloatOptions.k_max_macro := by decide
-theorem k_min_macro : Gen.Literals.WriteFloatOptions.k_min_macro = Spec.LiteralsExpected.WriteFloatOptions.k_min_macro := by decide
 theorem k_new : Gen.Literals.WriteFloatOptions.k_new = Spec.LiteralsExpected.WriteFloatOptions.k_new := by decide
 theorem k_get_max_significant_digits : Gen.Literals.WriteFloatOptions.k_get_max_significant_digits = Spec.LiteralsExpected.WriteFloatOptions.k_get_max_significant_digits := by decide
 theorem k_get_min_significant_digits : Gen.Literals.WriteFloatOptions.k_get_min_significant_digits = Spec.LiteralsExpected.WriteFloatOptions.k_get_min_significant_digits := by decide
